@@ -50,7 +50,10 @@ def c09(rep, tier, seed):
     suite_join.mc(rep, tier)
     seeds = (0, 1) if tier == "quick" else (0, 1, 2, 3, 5, 8, 13, 21)
     cl = ("rows_inner", "operands_unchanged")
-    suite_join.gen(rep, tier, '{"inner"}', '{"many_to_many"}', cl, hashseeds=seeds)
+    # every expect word: where the expectation holds the rows and their order are those of the plain join
+    suite_join.gen(rep, tier, '{"inner"}', suite_join.ALL_EXPECTS, cl, hashseeds=seeds)
+    if tier == "quick":
+        suite_join.gen(rep, tier, '{"inner"}', '{"many_to_many"}', cl, hashseeds=seeds[:1], scopes=[(2, 2)])
     suite_join.trace(rep, tier, seed, cl, kinds=("inner",), hashseed=seed % 1000)
     suite_repo.validate(rep, {"join"}, cl)
     suite_heap.gen(rep, tier, "obst4", ("obs_join",))      # joins after write histories of the operands (also as right table, expect words in sequence)
@@ -61,7 +64,9 @@ def c10(rep, tier, seed):
     suite_join.mc(rep, tier)
     seeds = (0, 1) if tier == "quick" else (0, 1, 2, 3, 5, 8, 13, 21)
     cl = ("rows_left", "rows_full")
-    suite_join.gen(rep, tier, '{"left","full"}', '{"many_to_many"}', cl, hashseeds=seeds)
+    suite_join.gen(rep, tier, '{"left","full"}', suite_join.ALL_EXPECTS, cl, hashseeds=seeds)
+    if tier == "quick":
+        suite_join.gen(rep, tier, '{"left","full"}', '{"many_to_many"}', cl, hashseeds=seeds[:1], scopes=[(2, 2)])
     suite_join.trace(rep, tier, seed, cl, kinds=("left", "full"), hashseed=seed % 1000)
     suite_repo.validate(rep, {"join"}, cl)
     suite_heap.gen(rep, tier, "obst4", ("obs_join",))      # joins after write histories of the operands (also as right table, expect words in sequence)
@@ -160,9 +165,10 @@ def c15(rep, tier, seed):
         "a write visible through another vector, or a live registration under an identity its owner does not use are violations",
     ]
     cl = ("spurious_refusal", "leaked_write", "registry", "sharing")
-    suite_heap.mc(rep, tier, ["alias", "tables"])
+    suite_heap.mc(rep, tier, ["alias", "tables", "share"])
     suite_heap.devs(rep, ["NoUnregister", "SetAttrNoReregister"])
     suite_heap.gen(rep, tier, "alias", cl)
+    suite_heap.gen(rep, tier, "share", cl)        # 3-4 sharers of one tuple dropped in every order, then written
     suite_heap.gen(rep, tier, "tables", cl)
     suite_heap.trace(rep, tier, seed, cl)
     # multi-column table assignment while an UNADDRESSED column shares its storage must not be refused
@@ -217,6 +223,7 @@ def c07(rep, tier, seed):
     suite_vec.gen(rep, tier, ["slice", "mask", "int", "elem"], C07_CL)
     suite_table.gen(rep, tier, ["select"], ("missing_column", "select_cols", "string_index", "commute"))
     suite_vec.trace(rep, tier, seed, C07_CL, ops=("slice", "mask"))
+    suite_repo.validate(rep, {"getitem"}, ("getitem", "index_accepts", "index_rejects"))     # every v[key] the repository's own tests execute
     suite_heap.gen(rep, tier, "obsv2", ("obs_cmp",))
     suite_heap.gen(rep, tier, "obst3", ("obs_select",))     # selections after rename histories (live view / rename_column)
     if tier != "quick":
@@ -229,6 +236,7 @@ def c08(rep, tier, seed):
     suite_vec.gen(rep, tier, ["assign", "atype"], C08_CL)
     suite_table.gen(rep, tier, ["tassign", "rename"], C08_CL + ("table_atomic", "table_assign_cells", "rename", "rename_reject", "rename_atomic"))
     suite_vec.trace(rep, tier, seed, C08_CL, ops=("assign",))
+    suite_repo.validate(rep, {"setitem"}, ("assign", "assign_reject", "atomic"))              # every v[key] = x the repository's own tests execute
     suite_heap.gen(rep, tier, "tables", ("contents@target", "write_error", "setattr_error"))
 
 
